@@ -4,17 +4,23 @@
 //
 // Exhaustive crash-point enumeration. A history of store operations (open, append,
 // save offset, close) is executed by a child process (this same binary, first argument
-// "child") under `strace -f -P <db files> -e inject=<write-class calls>:signal=KILL:when=k`,
-// for every k in 1..K, where K is the number of write-class system calls the history makes
-// on the database, -wal, -shm and -journal files (measured by three uninjected traced
-// runs that must agree call by call). SIGKILL on entry to the k-th call leaves exactly the
-// effects of calls 1..k-1 in the files. The child writes a "try" line before and an "ack"
-// line after each operation to its stdout (a pipe, one write(2) per line), so the parent
-// knows what had been acknowledged and what was in flight. The parent then opens the
-// database with sqlite.New and checks the recovered content against the acknowledgements.
-// Thorough adds a second crash level: every level-1 crash image is recovered by a second
-// child ("open, read, one append, one save") that is itself killed at each of its calls.
-// Clean-close variant: every operation prefix followed by a normal Close, no kill.
+// "child") under `strace -f -y -P x.db -P x.db-wal -P x.db-shm -P x.db-journal
+// -e trace=<write-class calls> -e inject=<name>:signal=KILL:when=<n>`, once for every k in
+// 1..K, where K is the number of write-class system calls the history makes on those
+// files (measured by three uninjected traced runs that must agree call by call).
+// strace keeps one injection counter per system-call name (and per thread), so crash
+// point k is addressed as "the n-th call named <name>", name and n read off the
+// uninjected sequence; the child pins its goroutine to one thread; every killed run's
+// trace must equal the first k calls of the uninjected sequence (else exit 2).
+// -P also matches files that do not exist yet (open is matched by its path argument).
+// SIGKILL on entry to the k-th call leaves exactly the effects of calls 1..k-1 in the files.
+// The child writes a "try" line before and an "ack" line after each operation to its
+// stdout (a pipe, one write(2) per line), so the parent knows what had been acknowledged
+// and what was in flight. The parent then opens the database with sqlite.New and checks
+// the recovered content against the acknowledgements. Thorough adds a second crash level:
+// every level-1 crash image is recovered by a second child ("open, read, one append, one
+// save, close") that is itself killed at each of its calls. Clean-close variant: every
+// operation prefix followed by a normal Close, no kill.
 package main
 
 import (
@@ -1026,7 +1032,7 @@ func main() {
 			"histories":   hs,
 			"op_codes":    "O open+read+load offsets, A append next event (every third payload is 9 kB: overflow pages, multi-frame WAL transaction), S<sub><n> SaveOffset(sub, offset of the n-th latest event), C Close; a history that does not end in C exits without closing",
 			"syscall_set": syscallSet,
-			"strace":      "strace -f -y -o <log> -e trace=<set> -P x.db -P x.db-wal -P x.db-shm -P x.db-journal -e inject=<set>:signal=KILL:when=k <self> child -db … -ops …",
+			"strace":      "strace -f -y -o <log> -e trace=<set> -P x.db -P x.db-wal -P x.db-shm -P x.db-journal -e inject=<name of call k>:signal=KILL:when=<its ordinal among calls of that name> <self> child -db … -ops … (strace counts injections per system-call name; every killed run's trace is compared with the first k calls of the uninjected run)",
 		}
 	})
 }
